@@ -399,13 +399,17 @@ def split_trace(tr):
 
 
 class SyncImpl(D.Impl):
-    def __init__(self, policy_kind, rnd, srnd):
+    def __init__(self, policy_kind, rnd, srnd, plan=None):
         D.Impl.__init__(self, policy_kind, rnd)
         self.srnd = srnd
         self.sync_used = []
+        self.plan = plan          # fixed outcomes per event (corpus), else random
 
     def apply(self, ev):
-        mode = self.srnd.choice(["ok", "ok", "fail", None])
+        if self.plan is not None:
+            mode = self.plan.pop(0) if self.plan else None
+        else:
+            mode = self.srnd.choice(["ok", "ok", "fail", None])
         self.net.sync = mode
         n0 = len(self.net.attempts)
         rec = D.Impl.apply(self, ev)
@@ -422,14 +426,66 @@ class SyncGen(D.Gen):
             self.written = [o[2] for o in rec[2] if o[0] == "write"]
 
 
+def closed_monitor(records, transport_live):
+    """C10_close / C10_closed_forever restated for histories whose events cannot be told apart by D.monitor (synchronous
+    connect outcomes): after close() returned - no connection attempt, timer or write ever again; every Deferred has
+    fired; with no transport left the close Deferred has fired exactly once"""
+    closed_at, ncf, fired, nh = None, 0, set(), 0
+    for idx, (ev, _c, outs, en) in enumerate(records):
+        if ev[0] == "make" and ("raised", 1) not in outs and en:
+            nh += 1
+        for o in outs:
+            if o[0] == "def":
+                fired.add(o[1])
+            if o[0] == "closefired":
+                ncf += 1
+            if closed_at is not None and idx > closed_at and o[0] in ("connect", "sched", "write"):
+                return ("C10_closed_forever", "%r after close() (event %d: %r)" % (o, idx, ev), idx)
+        if ev[0] == "close" and en and ("raised", 2) not in outs and closed_at is None:
+            closed_at = idx
+    if closed_at is not None:
+        left = [h for h in range(nh) if h not in fired]
+        if left:
+            return ("C10_close", "after close() the Deferreds %r never fired" % left, len(records))
+        if not transport_live and ncf != 1:
+            return ("C10_close", "no transport is left but the close Deferred fired %d times" % ncf, len(records))
+    return None
+
+
+SYNC_CORPUS = [
+    # (events, synchronous outcome of the connect made by each event or None)
+    ([("make", 1, True), ("close",), ("fire",), ("make", 2, True)], ["fail", None, None, None]),                 # close during back-off after a synchronous failure
+    ([("make", 1, True), ("fire",), ("close",), ("fire",)], ["fail", "fail", None, None]),
+    ([("make", 1, True), ("make", 2, False), ("lost",), ("close",), ("fire",)], ["ok", None, "fail", None, None]),
+    ([("make", 1, True), ("fire",), ("frame", D.reply(1)), ("close",), ("lost",)], ["fail", "ok", None, None, None]),
+]
+
+
 def sync_connect_part(ck, rnd, n, tied):
     label = "endpoint.connect() completing synchronously (ok/fail at random) vs the model with the outcome as the next event"
     cases, impl, evss = [], [], []
-    for _ in range(n):
-        pk = rnd.choice(POLICIES)
-        g = SyncGen(rnd, profile=rnd.choice(["c10", "c06"]), length=rnd.choice([8, 20, 40, 70]), policy_kind=pk)
-        g.im = SyncImpl(pk, rnd, rnd)
-        events, records = g.run()
+    mon_bad = None
+    for i in range(n + 2 * len(SYNC_CORPUS)):
+        if i < 2 * len(SYNC_CORPUS):
+            pk = ("const", "const+cc")[i % 2]
+            events, plan = SYNC_CORPUS[i // 2]
+            im = SyncImpl(pk, None, None, list(plan))
+            for ev in events:
+                im.apply(ev)
+            records = im.records
+
+            class _G(object):
+                pass
+            g = _G()
+            g.im = im
+        else:
+            pk = rnd.choice(POLICIES)
+            g = SyncGen(rnd, profile=rnd.choice(["c10", "c06"]), length=rnd.choice([8, 20, 40, 70]), policy_kind=pk, end_close=rnd.random() < 0.3)
+            g.im = SyncImpl(pk, rnd, rnd)
+            events, records = g.run()
+        cm = closed_monitor(records, g.im.transport() is not None)
+        if cm and mon_bad is None:
+            mon_bad = (cm, events, list(g.im.sync_used), pk)
         mev = []
         for ev, used in zip(events, g.im.sync_used):
             mev.append(ev)
@@ -456,10 +512,14 @@ def sync_connect_part(ck, rnd, n, tied):
             if first is None:
                 first = i
     st = ck.cov["correspondence"].setdefault(label, {"cases": 0, "differences": 0, "in_coq_sample": 0})
-    st["cases"] += n
+    st["cases"] += len(cases)
     st["differences"] += ndiff
-    ck.cov["evaluations"] += n
-    if first is not None:
+    ck.cov["evaluations"] += len(cases)
+    if mon_bad is not None:
+        (thm, msg, idx), events, used, pk = mon_bad
+        ck.violation({"kind": "monitor: history with synchronously completing connect()", "theorem": thm, "message": msg,
+                      "events": D.jsonable(events), "sync_outcomes": used, "policy": pk, "replay_op": "bc-sync"})
+    elif first is not None:
         events, pk = evss[first]
         ck.violation({"kind": "correspondence broken", "correspondence": "corr:brokerclient:" + label, "theorems_no_longer_tied": tied,
                       "events": D.jsonable(events), "sync_outcomes": impl[first][1], "policy": pk, "impl": impl[first][0], "model": mo[first],
